@@ -313,6 +313,22 @@ def inline_new_helpers(tree, ref_funcs, note):
                 if isinstance(m, FuncDef) and (n.name + '.' + m.name) not in ref_funcs:
                     helpers[('meth', m.name)] = m
     count = 0
+    # new functions that are only passed around as values (callbacks): written back as lambda expressions where that is possible
+    for key_, h in list(helpers.items()):
+        if key_[0] != 'mod':
+            continue
+        lam = _as_lambda(h)
+        if lam is None:
+            continue
+        for owner in [tree]:
+            par = parents_of(owner)
+            for n in [x for x in ast.walk(owner) if isinstance(x, ast.Name) and x.id == h.name and isinstance(x.ctx, ast.Load)]:
+                p_ = par.get(n)
+                if isinstance(p_, ast.Call) and p_.func is n:
+                    continue
+                replace_node(owner, n, fix(copy.deepcopy(lam), n))
+                note.append('function value %s written as lambda' % h.name)
+                count += 1
     # single-return helpers: substitute the returned expression for every call, wherever it stands
     def _single_return(h):
         body = [x for x in h.body if not (isinstance(x, ast.Expr) and isinstance(x.value, ast.Constant) and isinstance(x.value.value, str))]
@@ -378,6 +394,36 @@ def inline_new_helpers(tree, ref_funcs, note):
         count += 1
         note.append('inlined helper %s' % h.name)
     return count
+
+
+def _as_lambda(h):
+    """def f(args): [t = E ...] return R      or      def f(args): def g(args2): ... return R2 ; return g        as a lambda expression"""
+    if h.args.vararg or h.args.kwarg or h.args.kwonlyargs or h.decorator_list:
+        return None
+    body = [x for x in h.body if not (isinstance(x, ast.Expr) and isinstance(x.value, ast.Constant) and isinstance(x.value.value, str))]
+    if not body:
+        return None
+    env = {}
+    inner = {}
+    for st in body[:-1]:
+        if isinstance(st, ast.Assign) and len(st.targets) == 1 and isinstance(st.targets[0], ast.Name):
+            v = _subst_params(ast.Expression(body=copy.deepcopy(st.value)), env).body
+            env[st.targets[0].id] = v
+        elif isinstance(st, FuncDef):
+            lam = _as_lambda(st)
+            if lam is None:
+                return None
+            inner[st.name] = lam
+        else:
+            return None
+    last = body[-1]
+    if not isinstance(last, ast.Return) or last.value is None:
+        return None
+    if isinstance(last.value, ast.Name) and last.value.id in inner:
+        e = _subst_params(ast.Expression(body=copy.deepcopy(inner[last.value.id])), env).body
+    else:
+        e = _subst_params(ast.Expression(body=copy.deepcopy(last.value)), dict(env, **inner)).body
+    return ast.Lambda(args=copy.deepcopy(h.args), body=e)
 
 
 def _find_helper_site(tree, helpers, ref_funcs):
@@ -1598,7 +1644,79 @@ def rw_flip_compare(func, k):
     return True
 
 
-GUIDED = [rw_extract_temp, rw_flatten_comp_filter, rw_first_of_concat, rw_split_tuple_assign, rw_augcomp_to_loop, rw_len_zero, rw_bool_ifexp, rw_singleton_comp, rw_ndenumerate_value, rw_flat_to_ndenumerate, rw_slice_zero, rw_flip_compare, rw_argcomp_to_loop, rw_hoist_return, rw_get_none, rw_else_after_exit_wrap, rw_else_after_exit_unwrap, rw_comp_to_loop, rw_loop_to_comp, rw_not_compare, rw_demorgan, rw_swap_branches, rw_merge_nested_if, rw_split_and_if, rw_guard_to_swapped_else, rw_swapped_else_to_guard, rw_drop_tail_return, rw_add_tail_return, rw_element_to_index_loop, rw_fuse_loops, rw_late_publication, rw_drop_tail_continue, rw_items_loop, rw_filter_loop, rw_loop_to_update, rw_is_false, rw_hoist_common_tail, rw_sink_common_tail, rw_ifexp_to_if, rw_if_to_ifexp, rw_bool_to_if, rw_kwargs_default, rw_trailing_return, rw_enumerate, rw_return_temp]
+def rw_pass_branch(func, k):
+    """if not c: REST    <->    if c: pass else: REST"""
+    sites = [(n, 'add') for n in ast.walk(func) if isinstance(n, ast.If) and not n.orelse]
+    sites += [(n, 'drop') for n in ast.walk(func) if isinstance(n, ast.If) and n.orelse and len(n.body) == 1 and isinstance(n.body[0], ast.Pass)]
+    if k >= len(sites):
+        return False
+    n, how = sites[k]
+    if how == 'add':
+        n.orelse = n.body
+        n.body = [fix(ast.Pass(), n)]
+        n.test = fix(negate(n.test), n.test)
+    else:
+        n.body = n.orelse
+        n.orelse = []
+        n.test = fix(negate(n.test), n.test)
+    return True
+
+
+def rw_dictcomp_to_loop(func, k):
+    """D = {K: V for x in it}   ->   D = {} ; for x in it: D[K] = V"""
+    sites = []
+    for owner, fld, blk in blocks_of(func):
+        for st in blk:
+            if isinstance(st, ast.Assign) and len(st.targets) == 1 and isinstance(st.targets[0], ast.Name) and isinstance(st.value, ast.DictComp):
+                sites.append((blk, st))
+    if k >= len(sites):
+        return False
+    blk, st = sites[k]
+    comp = st.value
+    name = st.targets[0].id
+    inner = [ast.Assign(targets=[ast.Subscript(value=ast.Name(id=name, ctx=ast.Load()), slice=comp.key, ctx=ast.Store())], value=comp.value)]
+    for g in reversed(comp.generators):
+        for c in reversed(g.ifs):
+            inner = [ast.If(test=c, body=inner, orelse=[])]
+        inner = [ast.For(target=g.target, iter=g.iter, body=inner, orelse=[])]
+    init = ast.Assign(targets=[ast.Name(id=name, ctx=ast.Store())], value=ast.Dict(keys=[], values=[]))
+    i = blk.index(st)
+    blk[i:i + 1] = [fix(init, st), fix(inner[0], st)]
+    return True
+
+
+def rw_none_flag(func, k):
+    """if c: x = None else: x = E ; if x is None: <exit>      ->      if c: <exit> ; x = E        (E cannot be None: a number)"""
+    def not_none(e):
+        if isinstance(e, ast.Constant):
+            return e.value is not None
+        if isinstance(e, ast.BinOp):
+            return True
+        if isinstance(e, ast.Call) and isinstance(e.func, ast.Name) and e.func.id in ('int', 'float', 'len', 'str', 'list', 'tuple'):
+            return True
+        if isinstance(e, ast.Subscript) and isinstance(e.value, ast.Call) and isinstance(e.value.func, ast.Attribute) and e.value.func.attr in ('unpack', 'unpack_from'):
+            return True
+        return False
+    sites = []
+    for owner, fld, blk in blocks_of(func):
+        for i, s in enumerate(blk[:-1]):
+            n = blk[i + 1]
+            if isinstance(s, ast.If) and len(s.body) == 1 and len(s.orelse) == 1 and isinstance(s.body[0], ast.Assign) and isinstance(s.orelse[0], ast.Assign) \
+                    and isinstance(s.body[0].targets[0], ast.Name) and ast.dump(s.body[0].targets[0]) == ast.dump(s.orelse[0].targets[0]) \
+                    and isinstance(s.body[0].value, ast.Constant) and s.body[0].value.value is None and not_none(s.orelse[0].value) \
+                    and isinstance(n, ast.If) and not n.orelse and always_exits(n.body) and isinstance(n.test, ast.Compare) and len(n.test.ops) == 1 and isinstance(n.test.ops[0], ast.Is) \
+                    and isinstance(n.test.left, ast.Name) and n.test.left.id == s.body[0].targets[0].id and isinstance(n.test.comparators[0], ast.Constant) and n.test.comparators[0].value is None:
+                sites.append((blk, i))
+    if k >= len(sites):
+        return False
+    blk, i = sites[k]
+    s, n = blk[i], blk[i + 1]
+    new_if = ast.If(test=s.test, body=n.body, orelse=[])
+    blk[i:i + 2] = [fix(new_if, s), s.orelse[0]]
+    return True
+
+
+GUIDED = [rw_extract_temp, rw_flatten_comp_filter, rw_first_of_concat, rw_split_tuple_assign, rw_augcomp_to_loop, rw_len_zero, rw_bool_ifexp, rw_singleton_comp, rw_ndenumerate_value, rw_flat_to_ndenumerate, rw_slice_zero, rw_flip_compare, rw_pass_branch, rw_dictcomp_to_loop, rw_none_flag, rw_argcomp_to_loop, rw_hoist_return, rw_get_none, rw_else_after_exit_wrap, rw_else_after_exit_unwrap, rw_comp_to_loop, rw_loop_to_comp, rw_not_compare, rw_demorgan, rw_swap_branches, rw_merge_nested_if, rw_split_and_if, rw_guard_to_swapped_else, rw_swapped_else_to_guard, rw_drop_tail_return, rw_add_tail_return, rw_element_to_index_loop, rw_fuse_loops, rw_late_publication, rw_drop_tail_continue, rw_items_loop, rw_filter_loop, rw_loop_to_update, rw_is_false, rw_hoist_common_tail, rw_sink_common_tail, rw_ifexp_to_if, rw_if_to_ifexp, rw_bool_to_if, rw_kwargs_default, rw_trailing_return, rw_enumerate, rw_return_temp]
 
 
 def _clone(node):
